@@ -206,7 +206,7 @@ class Machine:
 
     def _color_matrix_light(self) -> None:
         light = self._get_named_light()
-        if light is not None:
+        if light is not None and isinstance(light, MatrixLight):
             matrix = self._reg.matrix
             matrix = self._as_raw_matrix(matrix)
             matrix.find_replace(None, self._reg.default or [0, 0, 0, 0])
